@@ -245,8 +245,8 @@ func (p *phaser) Phase(orfs, seqs SeqBag) (phased chan PhasedSequence, err error
 	go func() {
 		wg.Wait()
 		verifhook.At("ph.c.wait", 0, 0)
-		close(phased)
 		verifhook.At("ph.c.close", 0, 0)
+		close(phased)
 		// In case an error occured
 		// we must finish to read the seqchan
 		for range seqchan {
